@@ -43,17 +43,26 @@ fn lca_of_range(n: &MNode, side: Side, a: usize, b: usize) -> (String, bool) {
     best
 }
 
-/// an element or token that renders nothing: empty mrow/mstyle/mpadded/mphantom/mtd-less rows, mspace,
-/// mphantom, empty or blank token
+fn renders_nothing(k: &MNode) -> bool {
+    if k.tag == "none" || k.tag == "mprescripts" || k.tag == "#text" {
+        return false;
+    }
+    if k.is_token() {
+        return k.txt().trim().is_empty();
+    }
+    k.tag == "mphantom" || k.tag == "mspace" || k.kids.is_empty() || (["mrow", "mstyle", "mpadded"].contains(&k.tag.as_str()) && k.kids.iter().all(renders_nothing))
+}
+
+/// The known-bad degenerate shapes (one family of defects in clean_mathml's empty-base handling):
+///  * a script / fraction / root / under-over element whose *first child* (the base) renders nothing -- the
+///    "script on an empty base" paths that convert neighbours into mmultiscripts;
+///  * an mmultiscripts with a child that renders nothing.
+/// Other degenerate children (an empty script of msubsup, an empty mrow inside a row, ...) are handled
+/// correctly by the pinned tree and are NOT part of the class.
 pub fn has_degenerate(n: &MNode) -> bool {
     n.any(&|k| {
-        if k.tag == "math" || k.tag == "#text" || k.tag == "none" || k.tag == "mprescripts" {
-            return false;
-        }
-        if k.is_token() {
-            return k.txt().trim().is_empty();
-        }
-        k.kids.is_empty() || k.tag == "mphantom" || k.tag == "mspace"
+        let t = k.tag.as_str();
+        (["msub", "msup", "msubsup", "munder", "mover", "munderover", "mfrac", "mroot"].contains(&t) && k.kids.first().map(renders_nothing).unwrap_or(false)) || (t == "mmultiscripts" && k.kids.iter().any(renders_nothing))
     })
 }
 
@@ -61,9 +70,24 @@ pub fn has_degenerate(n: &MNode) -> bool {
 /// rows / wrappers around a number count as the number
 pub fn has_adjacent_mn(n: &MNode) -> bool {
     fn numberish(k: &MNode) -> bool {
-        k.tag == "mn" || (["mrow", "mstyle", "mpadded"].contains(&k.tag.as_str()) && k.kids.len() == 1 && numberish(&k.kids[0]))
+        if k.tag == "mn" {
+            return true;
+        }
+        // roman numerals in mi / mtext are re-tagged mn
+        if (k.tag == "mi" || k.tag == "mtext") && !k.txt().is_empty() && k.txt().chars().all(|c| "IVXLCDM".contains(c)) || (k.tag == "mi" || k.tag == "mtext") && !k.txt().is_empty() && k.txt().chars().all(|c| "ivxlcdm".contains(c)) {
+            return true;
+        }
+        if ["mrow", "mstyle", "mpadded"].contains(&k.tag.as_str()) {
+            let visible: Vec<&MNode> = k.kids.iter().filter(|c| !renders_nothing(c)).collect();
+            return visible.len() == 1 && numberish(visible[0]);
+        }
+        false
     }
-    n.any(&|k| k.kids.windows(2).any(|w| numberish(&w[0]) && numberish(&w[1])))
+    // children that render nothing are removed first and do not keep two numbers apart
+    n.any(&|k| {
+        let visible: Vec<&MNode> = k.kids.iter().filter(|c| !renders_nothing(c)).collect();
+        visible.windows(2).any(|w| numberish(w[0]) && numberish(w[1]))
+    })
 }
 
 /// an mstyle/mpadded with several children: it is renamed to mrow and cleaned again, and when the merging
@@ -78,6 +102,13 @@ pub fn input_trigger(input: &MNode) -> Option<&'static str> {
     let lookalike = regex::Regex::new(r#"xmlns:[[:alpha:]]|class *= *['"](MJX-|data-mjx-)|</?[[:alpha:]]+:"#).unwrap();
     if !all_tokens_consistent(input) {
         Some("type-inconsistent-token")
+    } else if renders_nothing(input) || input.any(&|k| !k.is_token() && k.kids.len() >= 2 && k.kids.iter().all(renders_nothing)) || input.kids.iter().all(renders_nothing) {
+        // the whole expression, or a row with several children, in which nothing renders
+        Some("expression-renders-nothing")
+    } else if input.any(&|k| (k.tag == "mtable" || k.tag == "mtr" || k.tag == "mlabeledtr") && k.kids.is_empty()) {
+        Some("empty-table-or-row")
+    } else if input.any(&|k| k.kids.windows(2).any(|w| (w[0].tag == "mstyle" || w[0].tag == "mpadded") && w[0].tag == w[1].tag)) {
+        Some("adjacent-similar-wrappers")
     } else if has_degenerate(input) {
         Some("degenerate-child")
     } else if has_adjacent_mn(input) {
